@@ -551,6 +551,7 @@ func init() {
 			// arbitrary symbolic bytes: an uninterpreted FUNCTION of the string (equal strings give
 			// equal outcomes; only the documented contract is assumed)
 			cur.approx("strconv.Atoi on symbolic bytes: uninterpreted (ok, value)")
+			cur.ufUsed = true
 			key := "atoi|" + strSig(args[0])
 			uf, seen := cur.ufCache[key]
 			if !seen {
@@ -581,6 +582,7 @@ func init() {
 				return tuple{r, iface{}}
 			}
 			cur.approx("strconv.ParseFloat on symbolic bytes: uninterpreted (ok, value)")
+			cur.ufUsed = true
 			key := "pf|" + strSig(args[0])
 			uf, seen := cur.ufCache[key]
 			if !seen {
@@ -613,6 +615,7 @@ func init() {
 				// symbolic bytes: uninterpreted outcome (error, or some instant)
 				cur.approx("time.Parse on symbolic bytes: uninterpreted (ok, instant)")
 				tt := fr.i.prog.ImportedPackage("time").Type("Time").Type()
+				cur.ufUsed = true
 				if cur.branch(cur.fresh("Bool", "timeparse.ok")) {
 					z := zero(tt).(structure)
 					z[0] = uint64(0)
